@@ -1,2 +1,3 @@
 //! Reference models, written from the RFCs / the property statements, independent of attohttpc.
 pub mod chunked;
+pub mod deflate_enc;
